@@ -102,13 +102,28 @@ package execution
 // re-run of one dependency whose outputs could not be restored
 //@ func (*Executor).LoadDependencyOutputs$1() (err)
 //@   requires [in_worker] inWorker || soloPhase
+//@   requires [own_deps_present_before_rerun] (forall d model.BuildNode :: {edge(e.graph, d, tnode(localDep))} edge(e.graph, d, tnode(localDep)) && typeIs(d, "*model.Target") ==> asPtr(d, "*model.Target").OutputsLoaded) &&
+//@        (forall a model.BuildNode, d model.BuildNode :: {edge(e.graph, a, tnode(localDep)), edge(e.graph, d, a)} edge(e.graph, a, tnode(localDep)) && !typeIs(a, "*model.Target") && edge(e.graph, d, a) && typeIs(d, "*model.Target") ==> asPtr(d, "*model.Target").OutputsLoaded)
 //@   modifies heap("H$S$model.Target$OutputsLoaded"), heap("H$S$model.Target$OutputHash"), heap("H$S$model.Target$CacheTime"), heap("H$S$model.Target$ExecutionTime")
 //@   ensures [rerun_outputs_present] err == nil ==> localDep.OutputsLoaded
 //@   ensures [loaded_monotone] forall x *model.Target :: {x.OutputsLoaded} old(x.OutputsLoaded) ==> x.OutputsLoaded
 
+// The graph representation invariant (edge maps agree with the abstract edge relation) is handed down from Execute to the
+// task closure: Execute requires it, each closure is created where it holds.
+//@ func (*Executor).Execute(e, ctx) (m, err)
+//@   requires [graph] graphWF(e.graph) && e.targetHasher.graph == e.graph
+
+//@ func (*Executor).Execute$2(ctx, node) (r, err)
+//@   captured_requires [graph] graphWF(e.graph) && e.targetHasher.graph == e.graph
+
+//@ func (*Executor).getTaskFunc(e, ctx, target, binToolPaths, outputIdentifiers) (f)
+//@   requires [graph] absEdges(e.graph) && endpointsAreNodes(e.graph)
+//@   pure
+
 // C02/C13/C14: the cache-hit gate.
 //@ func (*Executor).getTaskFunc$1(update) (r, err)
 //@   requires [in_worker] inWorker
+//@   captured_requires [graph] absEdges(e.graph) && endpointsAreNodes(e.graph)
 //@   ensures [hit_requires_result] r == dag.CacheHit && err == nil ==> !lastLoadNil && lastLoadKey == target.ChangeHash
 //@   ensures [hit_requires_not_tainted] r == dag.CacheHit && err == nil ==> !lastIsTainted
 //@   ensures [hit_requires_cacheable] r == dag.CacheHit && err == nil ==> !inSlice(target.Tags, "no-cache") && e.enableCache
@@ -120,4 +135,7 @@ package execution
 //@   ensures [taint_consumed] r != dag.CacheHit && err == nil && old(has(bstored, "taint/" + "//" + target.Label.Package + ":" + target.Label.Name)) ==>
 //@        target.clearIssued || (taintLookups > old(taintLookups) && lastTaintErr)
 //@   before_call LoadDependencyOutputs#1 [exec_only_if] lastLoadNil || lastIsTainted || inSlice(target.Tags, "no-cache") || !e.enableCache || !target.checksOK || (target.restoreTried && !target.restored)
+//@   before_call executeTarget#1 [dependency_outputs_present_minimal] e.loadOutputsMode == config.LoadOutputsMinimal ==>
+//@        (forall d model.BuildNode :: {edge(e.graph, d, tnode(target))} edge(e.graph, d, tnode(target)) && typeIs(d, "*model.Target") ==> asPtr(d, "*model.Target").OutputsLoaded) &&
+//@        (forall a model.BuildNode, d model.BuildNode :: {edge(e.graph, a, tnode(target)), edge(e.graph, d, a)} edge(e.graph, a, tnode(target)) && !typeIs(a, "*model.Target") && edge(e.graph, d, a) && typeIs(d, "*model.Target") ==> asPtr(d, "*model.Target").OutputsLoaded)
 //@   before_call executeTarget#1 [exec_only_if] e.loadOutputsMode == config.LoadOutputsMinimal || lastLoadNil || lastIsTainted || inSlice(target.Tags, "no-cache") || !e.enableCache || !target.checksOK || (target.restoreTried && !target.restored)
